@@ -25,7 +25,7 @@ func init() {
 		Doc: "process_deposit for a new pubkey: an undecodable pubkey, an undecodable signature and a failed proof-of-possession each SKIP the deposit (return nil: the block stays valid, the deposit index has advanced); only state access failures are errors",
 		Run: ruleDepositPop})
 	register(&Rule{Name: "shuffle.identity", Floor: 2,
-		Doc: "the per-index permutation returns its input unchanged before the round loop only when there are no rounds (or the range has at most one element); the whole-list shuffle returns early only for rounds == 0 or at most one element — any wider shortcut is not the spec's permutation for the skipped sizes",
+		Doc: "every `if` on the way to the round loop of the per-index permutation and of the whole-list shuffle — one that returns the input before the loop, or one the loop sits in — skips the rounds only when there are no rounds or the range has at most one element (a disjunction of such conditions, never a conjunction); any wider shortcut is not the spec's permutation for the skipped sizes; no shortcut at all is fine",
 		Run: ruleShuffleIdentity})
 	register(&Rule{Name: "bisect.step", Floor: 1,
 		Doc: "a bisection loop `for lo+1 < hi { mid = lo + (hi-lo)/2; if present(mid) { lo = mid } else { hi = mid } }` narrows to exactly the probed point on both branches: moving a bound past the pivot (mid±1) skips a candidate that was never probed, or excludes the last present one",
@@ -234,6 +234,12 @@ func ruleMerkleUnrolled(c *Ctx) {
 						if k, ok := constantInt(info.Types[x.Index]); ok && k < cnt {
 							leaves = append(leaves, lf{"chunk", k, depth, types.ExprString(x)})
 							return
+						} else if ok {
+							// an element of the chunk array that the filling loop never reaches: still its zero value
+							if at, isArr := info.TypeOf(x.X).Underlying().(*types.Array); isArr && k < at.Len() {
+								leaves = append(leaves, lf{"zero", 0, depth, "untouched element " + types.ExprString(x)})
+								return
+							}
 						}
 					}
 				}
@@ -660,48 +666,104 @@ func ruleShuffleIdentity(c *Ctx) {
 	for _, fname := range []string{"innerPermuteIndex", "innerShuffleList"} {
 		_, fd := c.P.mustFunc("eth2/beacon/common", fname)
 		key := fname + ".early-return"
-		// statements before the first for loop
 		n := 0
-		for _, st := range fd.Body.List {
-			if _, ok := st.(*ast.ForStmt); ok {
-				break
-			}
-			is, ok := st.(*ast.IfStmt)
-			if !ok {
-				continue
-			}
-			returns := false
-			for _, b := range is.Body.List {
-				if _, ok := b.(*ast.ReturnStmt); ok {
-					returns = true
+		hasLoop := func(st ast.Node) bool {
+			found := false
+			ast.Inspect(st, func(m ast.Node) bool {
+				switch m.(type) {
+				case *ast.ForStmt, *ast.RangeStmt:
+					found = true
+				case *ast.FuncLit:
+					return false
 				}
-			}
-			if !returns {
-				continue
-			}
+				return !found
+			})
+			return found
+		}
+		judge := func(is *ast.IfStmt, atoms []ast.Expr, conj bool, how string) {
 			n++
 			k := fmt.Sprintf("%s#%d", key, n)
-			// the condition must be a disjunction of allowed atoms
 			var badAtoms []string
-			conj := len(flattenBool(is.Cond, token.LAND)) > 1
-			for _, a := range flattenBool(is.Cond, token.LOR) {
+			for _, a := range atoms {
 				if !identityAtomOK(info, a) {
 					badAtoms = append(badAtoms, types.ExprString(a))
 				}
 			}
 			switch {
 			case conj:
-				c.bad(k, is.Pos(), "%s returns early under the conjunction `%s`: each of `rounds == 0` and `size <= 1` alone makes the permutation the identity, the conjunction runs the rounds on inputs the other copy skips (or the reverse)", fname, types.ExprString(is.Cond))
+				c.bad(k, is.Pos(), "%s %s under the conjunction `%s`: each of `rounds == 0` and `size <= 1` alone makes the permutation the identity, the conjunction runs the rounds on inputs the other copy skips (or the reverse)", fname, how, types.ExprString(is.Cond))
 			case len(badAtoms) > 0:
-				c.bad(k, is.Pos(), "%s returns its input unchanged when `%s`: only rounds == 0 or a range of at most one element make the spec's permutation the identity", fname, strings.Join(badAtoms, " || "))
+				c.bad(k, is.Pos(), "%s %s when `%s`: only rounds == 0 or a range of at most one element make the spec's permutation the identity", fname, how, strings.Join(badAtoms, " || "))
 			default:
-				c.ok(k, is.Pos(), "early return only for `%s`", types.ExprString(is.Cond))
+				c.ok(k, is.Pos(), "%s only for `%s`", how, types.ExprString(is.Cond))
 			}
 		}
+		// the statements on the way to the round loop: an `if` that returns before it, or an `if` the loop sits in (the
+		// rounds are skipped when its condition fails)
+		var scan func(list []ast.Stmt)
+		scan = func(list []ast.Stmt) {
+			for _, st := range list {
+				is, isIf := st.(*ast.IfStmt)
+				if !isIf {
+					if hasLoop(st) {
+						return
+					}
+					continue
+				}
+				if hasLoop(is.Body) {
+					// skipped when !cond: the negation of a conjunction is the disjunction of the negated atoms
+					var atoms []ast.Expr
+					for _, a := range flattenBool(is.Cond, token.LAND) {
+						atoms = append(atoms, negatedAtom(a))
+					}
+					judge(is, atoms, len(flattenBool(is.Cond, token.LOR)) > 1, "skips the rounds unless the condition holds,")
+					scan(is.Body.List)
+					return
+				}
+				if is.Else != nil && hasLoop(is.Else) {
+					judge(is, flattenBool(is.Cond, token.LOR), len(flattenBool(is.Cond, token.LAND)) > 1, "skips the rounds")
+					if eb, ok := is.Else.(*ast.BlockStmt); ok {
+						scan(eb.List)
+					}
+					return
+				}
+				returns := false
+				for _, b := range is.Body.List {
+					if _, ok := b.(*ast.ReturnStmt); ok {
+						returns = true
+					}
+				}
+				if !returns {
+					continue
+				}
+				judge(is, flattenBool(is.Cond, token.LOR), len(flattenBool(is.Cond, token.LAND)) > 1, "returns its input unchanged")
+			}
+		}
+		scan(fd.Body.List)
 		if n == 0 {
-			c.info(key, fd.Pos(), "no early return before the round loop")
+			if hasLoop(fd.Body) {
+				c.ok(key, fd.Pos(), "no shortcut before the round loop: every input goes through the rounds")
+			} else {
+				c.unm(key, fd.Pos(), "no round loop in %s", fname)
+			}
 		}
 	}
+}
+
+// negatedAtom: the comparison that holds exactly when e does not (a != b for a == b, a <= b for a > b, …); anything
+// else is wrapped in a `!`, which no accepted atom matches.
+func negatedAtom(e ast.Expr) ast.Expr {
+	e = ast.Unparen(e)
+	if u, ok := e.(*ast.UnaryExpr); ok && u.Op == token.NOT {
+		return ast.Unparen(u.X)
+	}
+	if be, ok := e.(*ast.BinaryExpr); ok {
+		inv := map[token.Token]token.Token{token.EQL: token.NEQ, token.NEQ: token.EQL, token.LSS: token.GEQ, token.GEQ: token.LSS, token.GTR: token.LEQ, token.LEQ: token.GTR}
+		if op, ok := inv[be.Op]; ok {
+			return &ast.BinaryExpr{X: be.X, Op: op, Y: be.Y, OpPos: be.OpPos}
+		}
+	}
+	return &ast.UnaryExpr{Op: token.NOT, X: e}
 }
 
 // identityAtomOK: `rounds == 0`, or `<size> <= 1` / `< 2` / `== 0` / `== 1` where <size> is len(x) or a parameter named *size*/*count*.
@@ -719,7 +781,7 @@ func identityAtomOK(info *types.Info, e ast.Expr) bool {
 	}
 	lhs := ast.Unparen(stripConv(info, be.X))
 	if id, ok := lhs.(*ast.Ident); ok && strings.EqualFold(id.Name, "rounds") {
-		return be.Op == token.EQL && k == 0
+		return (be.Op == token.EQL && k == 0) || (be.Op == token.LSS && k == 1) || (be.Op == token.LEQ && k == 0)
 	}
 	isSize := false
 	switch x := lhs.(type) {
